@@ -71,7 +71,7 @@ Print Assumptions C02_sprint_leaf_noninterference.
    depth - over related leaves, and VALUES OF USER TYPES whose String / Error / GoString method
    returns related strings (no Formatter / SafeFormatter / SafeMessager; methods that return; error
    values only when no error hook is installed) [vrel]; container types not declared safe; and
-   for Unsafe(x) with x such a tree [arel]. *)
+   for Unsafe(x) with x such a tree and Safe(x) with x a leaf [arel]. *)
 Theorem C02_sprintf_tree_noninterference : forall fuel env f a1 a2 o1 o2,
   osane (orc env) -> no_star f = true -> Forall2 (arel (hooked env)) a1 a2 ->
   sprintf fuel env f a1 = ROk o1 -> sprintf fuel env f a2 = ROk o2 ->
@@ -154,12 +154,13 @@ Definition c02_tree (name : bytes) (id : Z) (tag : bytes) (x : Z) : list value :
                (VPtr (c02_t [42;109;97;105;110;46;69]%N) 53248 None) [ARet tag]))];
    (* Unsafe(struct with a declared-safe field): everything inside the envelope *)
    VUnsafe (VStruct (c02_t [109;97;105;110;46;81]%N)
-              [([75]%N, true, VStr (mkT [83;118;83;116;114]%N true false) [111;107]%N); ([86]%N, true, VInt c02_ti id)])].
-Definition c02_fmt2 : bytes := [37;43;118;124;37;118;124;37;118;124;37;118;124;37;118]%N.
+              [([75]%N, true, VStr (mkT [83;118;83;116;114]%N true false) [111;107]%N); ([86]%N, true, VInt c02_ti id)]);
+   VSafe (VStr c02_ts [118;49;46;50]%N) []].
+Definition c02_fmt2 : bytes := [37;43;118;124;37;118;124;37;118;124;37;118;124;37;118;124;37;115]%N.
 
 Lemma c02_trees_related : Forall2 (arel (hooked (mkEnv c02_orc None))) (c02_tree [97;98]%N 42 [120;10;121]%N 5) (c02_tree [99;100]%N 4711 [122;10;122]%N 77).
 Proof.
-  unfold c02_tree. constructor; [left|constructor; [left|constructor; [left|constructor; [left|constructor; [right|constructor]]]]].
+  unfold c02_tree. constructor; [left|constructor; [left|constructor; [left|constructor; [left|constructor; [right; left|constructor; [right; right|constructor]]]]]].
   - apply vr_struct; [reflexivity | reflexivity|].
     constructor; [split; [reflexivity|]; apply vr_leaf; c02_lrel; split; [reflexivity | c02_srel]|].
     constructor; [split; [reflexivity|]; apply vr_leaf; c02_lrel; split; [reflexivity|]; unfold irel, Fmt.two64; lia|].
@@ -178,6 +179,7 @@ Proof.
     apply vr_struct; [reflexivity | reflexivity|].
     constructor; [split; [reflexivity|]; apply vr_leaf, lrel_refl; reflexivity|].
     constructor; [|constructor]. split; [reflexivity|]. apply vr_leaf. c02_lrel. split; [reflexivity|]. unfold irel, Fmt.two64. lia.
+  - eexists _, _. split; [reflexivity|]. split; reflexivity.
 Qed.
 
 Example C02_tree_nonvacuous :
